@@ -59,7 +59,21 @@ def skip_ignored(pos, flags):
     if flags.uses_context:
         func = '_ctx.' + func
 
-    return Yield((CALL, Code(func), pos))[2]
+    return call_rule(Code(func), pos)[2]
+
+
+# How many rule calls have been generated so far. Code that moves into a helper
+# function is a generator exactly when it contains one: the count tells.
+_rule_calls = [0]
+
+
+def call_rule(func, pos):
+    _rule_calls[0] += 1
+    return Yield((CALL, func, pos))
+
+
+def rule_calls_generated():
+    return _rule_calls[0]
 
 
 def implementation_name(name):
